@@ -14,15 +14,19 @@
 (* Binning is 1 throughout (scope decision, DESIGN C03).                   *)
 (*                                                                         *)
 (* Actions  DoExport (list -> RELION table), DoReimport (that table back), *)
-(*          DoImport (independently given RELION table -> list).           *)
+(*          DoImport (independently given RELION table -> list),           *)
+(*          DoListOps (rows of an imported list removed / re-ordered),     *)
+(*          DoExportOrig (export with use_original_entries: every row      *)
+(*          keeps the original names of ITS particle), DoReimportOrig.     *)
 (***************************************************************************)
 EXTENDS Integers, Sequences, FiniteSets, TLC, Json, Cube
 
 CONSTANTS InitCases,     \* set of cases [mode, v, px, fmt, parts | rin]
           EmitMode       \* "none" | "tr"
 
-VARIABLES cs, rel, back, pc, op, cid
-vars == <<cs, rel, back, pc, op, cid>>
+VARIABLES cs, rel, back, pc, op, cid,
+          live           \* "orig" cases: indices of the imported rows that are still in the list, in list order
+vars == <<cs, rel, back, pc, op, cid, live>>
 
 U == 8
 
@@ -100,23 +104,43 @@ IdsOK(ids, subsets) ==
 \* the list the export sees
 Live == ApplyHist(cs.parts, cs.hist)
 
-Init == cs \in InitCases /\ rel = <<>> /\ back = <<>> /\ pc = "start" /\ op = "init" /\ cid = 0
+Init == cs \in InitCases /\ rel = <<>> /\ back = <<>> /\ pc = "start" /\ op = "init" /\ cid = 0 /\ live = <<>>
 
 DoExport == /\ pc = "start" /\ cs.mode = "export"
             /\ Len(Live) >= 1
             /\ rel' = [i \in 1..Len(Live) |-> ExportP(Live[i], cs.fmt)]
-            /\ pc' = "exported" /\ op' = "export" /\ UNCHANGED <<cs, back, cid>>
+            /\ pc' = "exported" /\ op' = "export" /\ UNCHANGED <<cs, back, cid, live>>
 
 DoReimport == /\ pc = "exported"
               /\ back' = [i \in 1..Len(rel) |-> ImportR(rel[i], cs.v, cs.px)]
-              /\ pc' = "reimported" /\ op' = "reimport" /\ UNCHANGED <<cs, rel, cid>>
+              /\ pc' = "reimported" /\ op' = "reimport" /\ UNCHANGED <<cs, rel, cid, live>>
 
-DoImport == /\ pc = "start" /\ cs.mode = "import"
+DoImport == /\ pc = "start" /\ cs.mode \in {"import", "orig"}
             /\ \A i \in 1..Len(cs.rin) : \A k \in 1..3 : OnLattice(cs.rin[i].origin[k], cs.v, cs.px)
             /\ back' = [i \in 1..Len(cs.rin) |-> ImportR(cs.rin[i], cs.v, cs.px)]
-            /\ pc' = "imported" /\ op' = "import" /\ UNCHANGED <<cs, rel, cid>>
+            /\ pc' = "imported" /\ op' = "import" /\ UNCHANGED <<cs, rel, cid, live>>
 
-Next == DoExport \/ DoReimport \/ DoImport
+\* "orig" cases: the imported list is cleaned / re-ordered (cs.hist: remove by class, select / permute rows) ...
+Annot == [i \in 1..Len(cs.rin) |-> [cls |-> cs.rin[i].cls, k |-> i]]
+DoListOps == /\ pc = "imported" /\ cs.mode = "orig"
+             /\ LET a == ApplyHist(Annot, cs.hist) IN Len(a) >= 1 /\ live' = [j \in 1..Len(a) |-> a[j].k]
+             /\ pc' = "reordered" /\ op' = "listops" /\ UNCHANGED <<cs, rel, back, cid>>
+
+\* ... and exported with use_original_entries: row j of the table is the original row of the j-th particle of the list (its
+\* names, numbers, half-set) with the particle's current pose (complete position, zero origins, same rotation) and class
+ExportOrigRow(r, b, f) ==
+    [coord |-> [i \in 1..3 |-> b.x[i] + b.s[i]], origin |-> <<<<0, 1>>, <<0, 1>>, <<0, 1>>>>, M |-> Code(Inv(FromCode(b.R))),
+     tomo |-> r.tomo, sid |-> r.sid, subset |-> r.subset, cls |-> b.cls,
+     tomoName |-> IF f.named THEN TomoName(f, r.tomo) ELSE <<>>,
+     partName |-> IF f.named THEN PartName(f, r.tomo, r.sid) ELSE <<>>]
+DoExportOrig == /\ pc = "reordered"
+                /\ rel' = [j \in 1..Len(live) |-> ExportOrigRow(cs.rin[live[j]], back[live[j]], cs.fmt)]
+                /\ pc' = "oexported" /\ op' = "exportorig" /\ UNCHANGED <<cs, back, cid, live>>
+DoReimportOrig == /\ pc = "oexported"
+                  /\ back' = [j \in 1..Len(rel) |-> ImportR(rel[j], cs.v, cs.px)]
+                  /\ pc' = "oreimported" /\ op' = "reimportorig" /\ UNCHANGED <<cs, rel, cid, live>>
+
+Next == DoExport \/ DoReimport \/ DoImport \/ DoListOps \/ DoExportOrig \/ DoReimportOrig
 Spec == Init /\ [][Next]_vars
 
 -----------------------------------------------------------------------------
@@ -161,13 +185,29 @@ C03_RoundTrip ==
             /\ FromCode(back[i].R) = Rot(Live[i])
             /\ back[i].tomo = Live[i].tomo /\ back[i].cls = Live[i].cls /\ back[i].geom3 = Live[i].sid
 
+\* export with the original entries: row j carries the names AND the pose of one and the same particle
+C03_OriginalEntries ==
+    pc \in {"oexported", "oreimported"} =>
+        /\ Len(rel) = Len(live)
+        /\ \A j \in 1..Len(live) :
+              LET r == cs.rin[live[j]]
+                  pos == [k \in 1..3 |-> r.coord[k] + ShiftOf(r.origin[k], cs.v, cs.px)]
+              IN  /\ rel[j].tomo = r.tomo /\ rel[j].sid = r.sid /\ rel[j].subset = r.subset /\ rel[j].cls = r.cls
+                  /\ cs.fmt.named => ParseTomo(rel[j].tomoName) = r.tomo /\ ParseSid(cs.v, rel[j].partName) = r.sid
+                  /\ rel[j].coord = pos /\ \A k \in 1..3 : rel[j].origin[k][1] = 0
+                  /\ rel[j].M = r.M
+                  /\ pc = "oreimported" =>
+                        /\ back[j].x = pos /\ back[j].s = <<0, 0, 0>> /\ Mul(FromCode(back[j].R), FromCode(r.M)) = Id
+                        /\ back[j].tomo = r.tomo /\ back[j].cls = r.cls /\ back[j].geom3 = r.sid
+
 -----------------------------------------------------------------------------
 EmitTR == \/ EmitMode # "tr"
           \/ PrintT(<<"TR", ToJson([cid |-> cid, cs |-> IF cid = 0 THEN cs ELSE <<>>, op |-> op',
-                                    rel |-> IF op' = "export" THEN rel' ELSE <<>>,
-                                    innames |-> IF op' = "import" /\ cs.fmt.named
+                                    rel |-> IF op' \in {"export", "exportorig"} THEN rel' ELSE <<>>,
+                                    live |-> live',
+                                    innames |-> IF op' \in {"import", "exportorig", "reimportorig"} /\ cs.fmt.named
                                                 THEN [i \in 1..Len(cs.rin) |-> <<TomoName(cs.fmt, cs.rin[i].tomo),
                                                                                  PartName(cs.fmt, cs.rin[i].tomo, cs.rin[i].sid)>>]
                                                 ELSE <<>>,
-                                    back |-> IF op' = "export" THEN <<>> ELSE back'])>>)
+                                    back |-> IF op' \in {"import", "reimport", "reimportorig"} THEN back' ELSE <<>>])>>)
 =============================================================================
